@@ -66,13 +66,20 @@ func (c wkClass) pod(i int) world.PodSpec {
 		return world.PodSpec{Name: fmt.Sprintf("d-r1-%c", 'x'+rune(i)), NS: "ns", OwnerKind: "ReplicaSet", OwnerName: "d-r1", Policy: c.Policy, Pool: "pl"}
 	case "bare":
 		return world.PodSpec{Name: fmt.Sprintf("b-%d", i), NS: "ns", Policy: c.Policy}
+	case "stsmulti":
+		// statefulset pods requesting two IPs each (two single-address ranges of one pool of the two-pool topology)
+		r := `[["10.10.1.1"],["10.10.1.2"]]`
+		if i%2 == 1 {
+			r = `[["10.10.2.1"],["10.10.2.2"]]`
+		}
+		return world.PodSpec{Name: fmt.Sprintf("a-%d", i), NS: "ns", OwnerKind: "StatefulSet", OwnerName: "a", Policy: c.Policy, Ranges: r}
 	}
 	panic("class")
 }
 
 func (c wkClass) setWorkload(w *world.World, replicas int) {
 	switch c.Kind {
-	case "sts":
+	case "sts", "stsmulti":
 		w.SetStatefulSet("ns", "a", replicas)
 	case "dp", "dppool":
 		w.SetDeployment("ns", "d", replicas)
@@ -373,6 +380,39 @@ func famLag(cloud bool, bounds map[string]int) []*Scenario {
 					}
 				},
 				Final: func(w *world.World) { w.SyncAllPodCaches(); quiesce(w) },
+			})
+		}
+	}
+	return out
+}
+
+// famRestartOverlap: a galaxy-ipam instance is replaced (restart, leader change) while the old one is still finishing a bind:
+// the old instance's Bind of pod 0 runs concurrently with the new instance's start-up (ConfigurePool lists the store) and
+// its scheduling of pod 1. Pools of one and two addresses.
+func famRestartOverlap(cloud bool, bounds map[string]int) []*Scenario {
+	var out []*Scenario
+	for _, k := range []int{1, 2} {
+		for _, c := range []wkClass{{"sts", ""}, {"sts", "never"}} {
+			k, c := k, c
+			out = append(out, &Scenario{Name: fmt.Sprintf("restart-overlap/%s/pool%d", c, k), Class: c.String(), Cfg: cfgOnePool(k, cloud), Bounds: bounds, Weight: 3,
+				Build: func(w *world.World) []Thread {
+					c.setWorkload(w, 2)
+					p0, p1 := c.pod(0), c.pod(1)
+					pod0 := w.CreatePod(p0)
+					w.CreatePod(p1)
+					_, _ = w.Filter(p0.Key())
+					old := w.Plugin
+					return []Thread{
+						{"old-instance-bind", func() { _ = w.BindWith(old, "ns", p0.Name, string(pod0.UID), "n1") }},
+						{"new-instance", func() {
+							if err := w.Restart(); err != nil {
+								return
+							}
+							scheduleRetry(w, p1.Key(), 2)()
+						}},
+					}
+				},
+				Final: func(w *world.World) { _ = w.Restart(); quiesce(w) },
 			})
 		}
 	}
